@@ -1,7 +1,7 @@
 (* C11 - Transcript files read back exactly what was written.
    Property theorems only: each is closed by [exact <lemma>] and followed by [Print Assumptions].
    The harness re-checks this file on every run.  Models: C11/Model.v; vocabulary: C11/Spec.v. *)
-From Coq Require Import List ZArith Bool QArith Qabs Sorted Permutation.
+From Coq Require Import List ZArith Bool QArith Qabs Sorted Permutation Lia.
 From PV Require Import C11.Model C11.Spec C11.ProofsSort C11.ProofsTrn C11.ProofsCtm C11.ProofsNum
   C11.ProofsTg C11.ProofsTok C11.Proofs.
 Import ListNotations.
@@ -257,7 +257,7 @@ Proof.
   - intros u tr H. reflexivity.
   - intros u tr H. reflexivity.
   - intros u tr [H|[H|[]]]; inversion H; discriminate.
-  - intros u tr [H|[H|[]]]; inversion H; subst; repeat constructor; unfold valid_tok; cbn; intuition lia || (cbn; Lia.lia).
+  - intros u tr [H|[H|[]]]; inversion H; subst; repeat constructor; unfold valid_tok; cbn; lia.
 Qed.
 
 (* an interval tier with a gap, times that need rounding, read back with a fill token *)
